@@ -23,6 +23,13 @@ RULE_CODES = {
 }
 
 
+def new_lineage():
+    """call when a workload starts on a new start tree: the fold map is per lineage (the same
+    double can stand for different exact values in unrelated expressions)"""
+    X.EXACT.clear()
+    EPISODE["folded"] = False
+
+
 def rule_classes():
     import mathy_core.rules as R
 
@@ -238,10 +245,17 @@ def _structure(rec, snap, arm, key_case, changed):
 def _values(rec, snap, arm, key_case, changed):
     before, after, label = snap["before"], snap["after"], snap["label"]
     rng = random.Random(core.h64((label, snap["index"], snap["text"])))
-    fold_now = X.folded(before, after)
-    if fold_now:
+    # float folds: work out the exact value every new float constant stands for, so that the
+    # comparison stays exact; tolerance is only the fallback for unresolved folds
+    n_new, n_res = X.resolve_folds(snap["node_shadow"], before, after)
+    if n_new:
         rec.arm("value:folded-step")
-    tol = fold_now or EPISODE["folded"]
+        rec.arm("value:fold-resolved-exactly" if n_res == n_new else "value:fold-unresolved")
+        EPISODE["folded"] = True   # matters only for comparisons with the START of an episode
+    # before and after of ONE step share every older folded constant, so only this step's own
+    # new floats can make an exact comparison fail for rounding reasons
+    tol = n_new > 0
+    snap["xbefore"], snap["xafter"] = X.exactify(before), X.exactify(after)
     names = S.variables(before) | S.variables(after)
     if S.has_nonfinite(before):
         rec.skip("value: non-finite constant in the input tree")
@@ -253,21 +267,24 @@ def _values(rec, snap, arm, key_case, changed):
             # a rewrite strictly inside one side: that side must keep its value
             side = 2 if snap["path"][0] == "L" else 3
             if after[0] == "Equal":
-                _value_pair(rec, snap, arm, key_case, changed, before[side], after[side], rng, tol, "side-of-equation")
+                _value_pair(rec, snap, arm, key_case, changed, snap["xbefore"][side], snap["xafter"][side], rng, tol, "side-of-equation")
         return
     if "value" in CHECKS:
         if after[0] == "Equal":
             rec.violation("C01", f"value/{arm}/became-equation", "an expression was rewritten into an equation",
                           witness_of(snap, {"after": snap["after_text"], "summary": f"{label}: '{snap['text']}' -> '{snap['after_text']}'"}))
             return
-        _value_pair(rec, snap, arm, key_case, changed, before, after, rng, tol, "expression")
+        _value_pair(rec, snap, arm, key_case, changed, snap["xbefore"], snap["xafter"], rng, tol, "expression")
 
 
 def _value_pair(rec, snap, arm, key_case, changed, sb, sa, rng, tol, what):
     label = snap["label"]
     names = S.variables(sb) | S.variables(sa)
     sig = X.assignments(names, rng, n_extra=2)
-    r = X.compare_values(sb, sa, sig, tol)
+    r = X.compare_values(sb, sa, sig, False)
+    if r["diffs"] and tol:
+        r = X.compare_values(sb, sa, sig, True)
+        rec.arm("value:tolerant-fallback")
     rec.arm("value:compared:" + what)
     if r["diffs"]:
         s0, vb, va = r["diffs"][0]
@@ -331,11 +348,19 @@ def _equation(rec, snap, arm, key_case, changed, rng, tol, names):
             rec.violation("C02", f"equation/BM/{snap['tag']}/{kind}", "balanced move " + p,
                           witness_of(snap, {"after": snap["after_text"], "summary": f"BM on node {snap['index']} of '{snap['text']}' -> '{snap['after_text']}': {p}"}))
             return
+    xb, xa = snap.get("xbefore", before), snap.get("xafter", after)
     sig = list(snap["hints"]) + X.assignments(names, rng, n_extra=2)
-    wit = X.witnesses([before, after], names, sig)
+    wit = X.witnesses([xb, xa], names, sig)
     allsig = sig + wit
-    r = X.compare_equations(before, after, allsig, tol, tol)
+    r = X.compare_equations(xb, xa, allsig, False, False)
     rec.arm("equation:compared")
+    if r["diffs"] and tol:
+        # a float fold whose exact value could not be worked out: truth values are not
+        # comparable across it (a tolerance relative to magnitudes is not invariant under
+        # legitimate rewrites such as cancelling a constant on both sides)
+        rec.skip("equation: unresolved float fold")
+        rec.arm("equation:unresolved-fold-skip")
+        return
     if r["diffs"]:
         s0, tb, ta = r["diffs"][0]
         rec.violation("C02", f"equation/{arm}/solutions", "an applicable rewrite changed the solution set of the equation",
